@@ -303,7 +303,10 @@ const (
 func (r *Run) execBlocks(fr *frame) {
 	g := fr.g
 	for {
-		cb := fr.info.blocks[fr.block.Index]
+		cb := &fr.info.blocks[fr.block.Index]
+		if cb.hit == 0 {
+			cb.hit = 1
+		}
 		// phis (parallel assignment)
 		if cb.nphi > 0 {
 			pi := -1
